@@ -88,7 +88,7 @@ theorem foldl_interrupted {α} (f : EState → α → EState) (h : ∀ s a, (f s
   | cons a l ih => rw [List.foldl_cons, ih, h]
 
 /-- An environment action sets `_interrupted` only if it is a non-deferred pause request, an
-    abort/stop/halt request (accepted or refused), or a suspension request while no checkpoint exists;
+    ACCEPTED abort/stop/halt request (a refused one stores nothing), or a suspension request while no checkpoint exists;
     no action resets it. -/
 theorem applyAction_interrupted (s : EState) (a : Action) :
     (applyAction s a).interrupted = s.interrupted ∨
@@ -126,41 +126,38 @@ theorem applyAction_interrupted (s : EState) (a : Action) :
     simp only [applyAction]
     by_cases hi : s.state = .idle
     · left; unfold requestTerminate; simp [hi]; rfl
-    · right
-      refine ⟨?_, Or.inr (Or.inl trivial)⟩
-      unfold requestTerminate
+    · unfold requestTerminate
       have hidle : (s.state == .idle) = false := by simpa using hi
       simp only [hidle, Bool.false_eq_true, if_false]
       split
-      · exact (termPrep_fields s _ _).2.1
+      · left; rfl
       · rename_i s' hs
-        exact (termAfter_fields s' _ _).2.1.trans ((setState_keep hs).2.1.trans (termPrep_fields s _ _).2.1)
+        right
+        exact ⟨(termAfter_fields s' _ _).2.1.trans ((setState_keep hs).2.1.trans (termPrep_fields s _ _).2.1), Or.inr (Or.inl trivial)⟩
   | stop =>
     simp only [applyAction]
     by_cases hi : s.state = .idle
     · left; unfold requestTerminate; simp [hi]; rfl
-    · right
-      refine ⟨?_, Or.inr (Or.inr (Or.inl trivial))⟩
-      unfold requestTerminate
+    · unfold requestTerminate
       have hidle : (s.state == .idle) = false := by simpa using hi
       simp only [hidle, Bool.false_eq_true, if_false]
       split
-      · exact (termPrep_fields s _ _).2.1
+      · left; rfl
       · rename_i s' hs
-        exact (termAfter_fields s' _ _).2.1.trans ((setState_keep hs).2.1.trans (termPrep_fields s _ _).2.1)
+        right
+        exact ⟨(termAfter_fields s' _ _).2.1.trans ((setState_keep hs).2.1.trans (termPrep_fields s _ _).2.1), Or.inr (Or.inr (Or.inl trivial))⟩
   | halt =>
     simp only [applyAction]
     by_cases hi : s.state = .idle
     · left; unfold requestTerminate; simp [hi]; rfl
-    · right
-      refine ⟨?_, Or.inr (Or.inr (Or.inr (Or.inl trivial)))⟩
-      unfold requestTerminate
+    · unfold requestTerminate
       have hidle : (s.state == .idle) = false := by simpa using hi
       simp only [hidle, Bool.false_eq_true, if_false]
       split
-      · exact (termPrep_fields s _ _).2.1
+      · left; rfl
       · rename_i s' hs
-        exact (termAfter_fields s' _ _).2.1.trans ((setState_keep hs).2.1.trans (termPrep_fields s _ _).2.1)
+        right
+        exact ⟨(termAfter_fields s' _ _).2.1.trans ((setState_keep hs).2.1.trans (termPrep_fields s _ _).2.1), Or.inr (Or.inr (Or.inr (Or.inl trivial)))⟩
   | status k ok =>
     left
     simp only [applyAction]; split
